@@ -167,6 +167,29 @@ where
         data.extend_from_slice(bytes_of(&Ix::DISCRIMINANT));
         self.data.serialize(&mut data)?;
 
+        #[cfg(star_frame_verif)]
+        if let Some(res) = crate::verif_hooks::handle_cpi(|| crate::verif_hooks::CpiRecord {
+            program_id: *program_id,
+            data: data.clone(),
+            // SAFETY: both arrays have been initialized up to their indices
+            metas: metas_arr.as_mut()[..metas_index]
+                .iter()
+                .map(|m| unsafe { m.assume_init_ref() })
+                .map(|m| (Pubkey::new_from_array(*m.pubkey), m.is_signer, m.is_writable))
+                .collect(),
+            infos: infos_arr.as_mut()[..infos_index]
+                .iter()
+                .map(|i| **unsafe { i.assume_init_ref() })
+                .collect(),
+            declared_len: metas_arr.as_mut().len(),
+            signer_seeds: signers_seeds
+                .iter()
+                .map(|s| s.iter().map(|s| s.to_vec()).collect())
+                .collect(),
+        }) {
+            return res;
+        }
+
         // SAFETY:
         // Our CpiAccountSet implementation ensures that the array has been initialized up to the index
         unsafe {
